@@ -196,6 +196,10 @@ def run_termset(ctx, rng, big=False):
     if rng.random() < 0.5:
         terms.append({'name': 'SPACE', 'pat': ['s', ' ', ''] if rng.random() < 0.6 else ['x', ' +', ''], 'prio': 0})
         ignore = ['SPACE']
+    if rng.random() < 0.2 and len(terms) - len(ignore) >= 3:
+        # one of the ordinary terminals is ignored too - an identifier regexp that contains keywords, or a keyword itself:
+        # what is dropped is decided by the terminal that is *reported*
+        ignore = ignore + [rng.choice([t['name'] for t in terms if t['name'] != 'SPACE'])]
     opts = {}
     r = rng.random()
     if r < 0.2:
